@@ -6,6 +6,7 @@ require (
 	github.com/RoaringBitmap/roaring/v2 v2.4.5
 	github.com/blevesearch/bleve_index_api v1.2.8
 	github.com/blevesearch/go-faiss v1.0.25
+	github.com/blevesearch/mmap-go v1.0.4
 	github.com/blevesearch/scorch_segment_api/v2 v2.3.10
 	github.com/blevesearch/vellum v1.1.0
 	github.com/blevesearch/zapx/v16 v16.0.0
@@ -13,7 +14,6 @@ require (
 
 require (
 	github.com/bits-and-blooms/bitset v1.22.0 // indirect
-	github.com/blevesearch/mmap-go v1.0.4 // indirect
 	github.com/golang/snappy v0.0.4 // indirect
 	golang.org/x/sys v0.13.0 // indirect
 )
